@@ -7,7 +7,7 @@ From RU Require Import Base.Prelude Base.Utf8 Base.Utf8Facts Model.AsciiSet Gen.
   Proofs.ListN Proofs.C14_Set Proofs.C14_Enc Proofs.C14_Views Proofs.C02_Enc Proofs.C02_Parts
   Proofs.C02_Opaque Proofs.C02_Path Proofs.C02_PathL1 Proofs.C03_WF Proofs.C01_Tables Proofs.C08_Input
   Proofs.C01_EqRun Proofs.C01_EqEnc Proofs.C01_EqApi Proofs.C01_EqOpaque Proofs.C01_EqDots Proofs.C01_EqPathSpec
-  Proofs.C06_Steps Proofs.C01_EqRef Proofs.C01_EqPath Proofs.C01_EqOverflow Proofs.C01_EqAuthSpec.
+  Proofs.C06_List Proofs.C06_Steps Proofs.C01_EqRef Proofs.C01_EqPath Proofs.C01_EqOverflow Proofs.C01_EqAuthSpec.
 
 (* ================= outcomes up to ParseError::Overflow ================= *)
 (* m is Ok v, or it is Err(Overflow) and P holds (P = "the final serialization is longer than u32") *)
@@ -310,3 +310,187 @@ Qed.
 
 Lemma valfrom_decimal d : valfrom 0 d = decimal_value d.
 Proof. reflexivity. Qed.
+
+(* ================= the host functions of the two sides on one string ================= *)
+(* the model's Host::parse_opaque + Display and the Standard's host parser + serializer agree on s:
+   both fail, or both succeed with the same text; the text does not start with ':', and the model's
+   host is the empty domain exactly for the empty string (its text is then empty) *)
+Definition host_agree (hpo : list N -> result host) (hd : host -> list N)
+           (shp : bool -> list N -> option spec_host) (shs : spec_host -> list N) (s : list N) : Prop :=
+  match hpo s, host_parsing shp true s with
+  | Ok h, Some sh => hd h = shs sh /\ starts_with_cp 58 (hd h) = false
+                     /\ (h = HDomain [] <-> s = []) /\ (s = [] -> hd h = [])
+  | Err _, None => True
+  | _, _ => False
+  end.
+
+Lemma set_port_none u : su_port u = None -> set_port u None = u.
+Proof. destruct u as [x1 x2 x3 x4 x5 x6 x7 x8]. cbn. intros ->. reflexivity. Qed.
+
+Lemma path_end_ae c : is_path_end c = is_ae c || (c =? 92).
+Proof. unfold is_path_end, is_ae. destruct (c =? 47), (c =? 92), (c =? 63), (c =? 35); reflexivity. Qed.
+
+Lemma inp_starts_with_char_ntnl c l : inp_starts_with_char c l = starts_with_cp c (ntnl l).
+Proof.
+  unfold inp_starts_with_char. destruct (inp_next l) as [[d r]|] eqn:En.
+  - destruct (inp_next_ntnl l d r En) as [-> _]. reflexivity.
+  - rewrite (inp_next_none_ntnl l En). reflexivity.
+Qed.
+
+Lemma hs_rest_head' t : forall br, match hs_rest br t with
+                                   | [] => True
+                                   | c :: _ => is_ae c = true \/ (c =? 58) = true
+                                   end.
+Proof.
+  induction t as [|c r IH]; intros br; [exact I|]. cbn [hs_rest]. destruct (hs_stop br c) eqn:E; [|apply IH].
+  unfold hs_stop in E. apply orb_true_iff in E. destruct E as [E|E]; [right | left; exact E].
+  apply andb_true_iff in E. destruct E as [E _]. exact E.
+Qed.
+
+Section Stages.
+Variable dbg : bool.
+Variable hp hpo : list N -> result host.
+Variable hd : host -> list N.
+Variable ovr : option (list N -> list N).
+Variable shp : bool -> list N -> option spec_host.
+Variable shs : spec_host -> list N.
+
+(* ---------- parse_host_and_port ---------- *)
+Theorem hp_spec (P : Prop) sch ser1 rem u : usv_list rem -> scheme_type_of sch = STNotSpecial ->
+  (exists tl, ser1 = sch ++ tl) -> su_port u = None ->
+  let HR := ntnl rem in
+  let Hh := hs_host false HR in
+  let X := match port_split (hs_rest false HR) with Some PR => after_digits PR | None => hs_rest false HR end in
+  host_agree hpo hd shp shs Hh ->
+  match port_split (hs_rest false HR) with
+  | Some PR => ((decimal_value (digits_of PR) <=? 65535) && starts_with_cp 92 (after_digits PR)) = false
+  | None => True
+  end ->
+  match sauth_host shp u HR with
+  | None => mfail (parse_host_and_port hp hpo hd CUrlParser STNotSpecial (nlen sch) ser1 rem)
+  | Some su =>
+      exists host sh port rem',
+        hpo Hh = Ok host /\ host_parsing shp true Hh = Some sh
+        /\ (Hh = [] -> port = None) /\ (forall p, port = Some p -> p <= 65535)
+        /\ ntnl rem' = X /\ usv_list rem' /\ starts_ae X = true
+        /\ su = sauth_tail (set_port (set_host u (Some sh)) port) X
+        /\ ((U32_MAX_P < nlen (ser1 ++ hd host) -> P) ->
+            oob P (parse_host_and_port hp hpo hd CUrlParser STNotSpecial (nlen sch) ser1 rem)
+                (ser1 ++ hd host ++ port_suffix port, nlen (ser1 ++ hd host), hi_of_host host, port, rem'))
+  end.
+Proof.
+  intros Hu Hns Hsch Hpo HR Hh X HA Hbs.
+  unfold parse_host_and_port, parse_host. cbn [st_is_file st_is_special scheme_type_eqb andb negb].
+  destruct (host_scan_spec rem false [] Hu) as (rem2 & Escan & Hrem2 & Hu2). cbn [rev app] in Escan.
+  rewrite Escan. fold HR in Hrem2 |- *. fold Hh.
+  unfold sauth_host. fold Hh.
+  unfold host_agree in HA.
+  pose proof (hs_rest_head' HR false) as Hhead.
+  destruct (hpo Hh) as [host|e] eqn:Ehpo; destruct (host_parsing shp true Hh) as [sh|] eqn:Eshp; try contradiction.
+  2:{ (* both host parsers fail *)
+      destruct (port_split (hs_rest false HR)); [destruct (is_nil Hh)|]; cbn [of_result pbind]; exists e; reflexivity. }
+  destruct HA as (Htxt & Hcol & Hemp & Hemp2).
+  cbn [of_result pbind].
+  assert (default_port (nfirstn (nlen sch) (ser1 ++ hd host)) = None) as Edp.
+  { destruct Hsch as [tl ->]. rewrite <- app_assoc, nfirstn_app_len.
+    unfold default_port. unfold scheme_type_of in Hns.
+    destruct (list_eqb sch s_http); [discriminate|]. destruct (list_eqb sch s_https); [discriminate|].
+    destruct (list_eqb sch s_ws); [discriminate|]. destruct (list_eqb sch s_wss); [discriminate|].
+    destruct (list_eqb sch s_ftp); [discriminate|]. reflexivity. }
+  destruct (port_split (hs_rest false HR)) as [PR|] eqn:Eps.
+  - (* ':' ends the host *)
+    destruct (hs_rest false HR) as [|c0 X0] eqn:EX0; [discriminate Eps|]. cbn [port_split] in Eps.
+    destruct (c0 =? 58) eqn:E58; [|discriminate Eps]. inversion Eps; subst X0. apply N.eqb_eq in E58. subst c0.
+    assert (inp_starts_with_char 58 rem2 = true) as Esw by (rewrite inp_starts_with_char_ntnl, Hrem2; reflexivity).
+    destruct (inp_next_some rem2 58 PR Hrem2) as (rem3 & En3 & Hrem3 & _).
+    assert (usv_list rem3) as Hu3 by (exact (inp_next_usv rem2 58 rem3 Hu2 En3)).
+    assert (inp_split_prefix_char 58 rem2 = Some rem3) as Esp by (unfold inp_split_prefix_char; rewrite En3; reflexivity).
+    destruct (is_nil Hh) eqn:Enil.
+    + (* empty host in front of a port: EmptyHost *)
+      destruct Hh as [|x y] eqn:EHh; [|discriminate Enil].
+      assert (host = HDomain []) as -> by (apply Hemp; reflexivity).
+      eapply mfail_bind2 with (P := True); [apply oob_u32; intros _; exact I|].
+      rewrite Esw. cbn [pbind]. exists EmptyHost. reflexivity.
+    + assert (Hh <> []) as Hne by (intros K; rewrite K in Enil; discriminate).
+      assert (match host with HDomain [] => if inp_starts_with_char 58 rem2 then PErr EmptyHost
+                                            else if false then PErr EmptyHost else POk tt
+                            | _ => POk tt end = POk tt) as Echk.
+      { destruct host as [[|a b]| |]; try reflexivity. exfalso. apply Hne. apply Hemp. reflexivity. }
+      cbn [st_is_special]. rewrite Esp.
+      pose proof (port_loop_spec rem3 0 false Hu3 ltac:(lia)) as HPL. cbv zeta in HPL. rewrite Hrem3 in HPL.
+      rewrite valfrom_decimal in HPL. cbn [orb] in HPL.
+      unfold sauth_port. cbn [X]. unfold parse_port.
+      destruct (starts_ae (after_digits PR)) eqn:Esae; cbn [negb].
+      * (* the port ends at the end of the authority *)
+        destruct (65535 <? decimal_value (digits_of PR)) eqn:Eov.
+        -- (* beyond 65535 *)
+           assert (mfail (' (port, rem4) <~ (' (p, any, rem0) <~ parse_port_loop CUrlParser rem3 0 false;;
+                           (if negb any && ctx_eqb CUrlParser CSetter && negb (inp_is_empty rem0) then PErr InvalidPort
+                            else POk (if negb any || opt_eqb (Some p) (default_port (nfirstn (nlen sch) (ser1 ++ hd host))) then None else Some p, rem0)));;
+                           POk (match port with Some p => (ser1 ++ hd host) ++ [58] ++ decimal p | None => ser1 ++ hd host end,
+                                nlen (ser1 ++ hd host), hi_of_host host, port, rem4))) as Hf.
+           { rewrite HPL. exists InvalidPort. reflexivity. }
+           assert (is_nil (digits_of PR) = false) as End.
+           { destruct (digits_of PR); [discriminate Eov | reflexivity]. }
+           rewrite End.
+           eapply mfail_bind2 with (P := True); [apply oob_u32; intros _; exact I|].
+           rewrite Echk. cbn [pbind]. exact Hf.
+        -- assert (exists rem4, parse_port_loop CUrlParser rem3 0 false
+                     = POk (decimal_value (digits_of PR), negb (is_nil (digits_of PR)), rem4)
+                     /\ ntnl rem4 = after_digits PR /\ usv_list rem4) as (rem4 & EPL & Hrem4 & Hu4).
+           { destruct (after_digits PR) as [|c X1] eqn:EX.
+             - exists []. split; [exact HPL | split; [reflexivity | constructor]].
+             - cbn [starts_ae] in Esae. rewrite path_end_ae, Esae in HPL. cbn [orb] in HPL. exact HPL. }
+           destruct (is_nil (digits_of PR)) eqn:End; try rewrite End in EPL; cbn [negb] in EPL.
+           ++ exists host, sh, None, rem4.
+              split; [reflexivity|]. split; [reflexivity|]. split; [reflexivity|].
+              split; [intros p Hp; discriminate Hp|].
+              split; [exact Hrem4|]. split; [exact Hu4|]. split; [exact Esae|].
+              split; [rewrite set_port_none; [reflexivity | exact Hpo]|].
+              intros HP. eapply oob_bind; [apply oob_u32; exact HP|]. rewrite Echk. cbn [pbind]. rewrite EPL. cbn [pbind].
+              cbn [ctx_eqb andb negb orb pbind port_suffix]. rewrite app_nil_r. right. reflexivity.
+           ++ exists host, sh, (Some (decimal_value (digits_of PR))), rem4.
+              split; [reflexivity|]. split; [reflexivity|]. split; [intros K; contradiction|].
+              split; [intros p Hp; inversion Hp; subst; lia|].
+              split; [exact Hrem4|]. split; [exact Hu4|]. split; [exact Esae|].
+              split; [reflexivity|].
+              intros HP. eapply oob_bind; [apply oob_u32; exact HP|]. rewrite Echk. cbn [pbind]. rewrite EPL. cbn [pbind].
+              cbn [ctx_eqb andb negb orb]. rewrite Edp. cbn [opt_eqb pbind port_suffix].
+              rewrite <- app_assoc. right. reflexivity.
+      * (* something else follows the digits: failure, unless it is '\' after a valid port *)
+        assert (mfail (' (port, rem4) <~ (' (p, any, rem0) <~ parse_port_loop CUrlParser rem3 0 false;;
+                        (if negb any && ctx_eqb CUrlParser CSetter && negb (inp_is_empty rem0) then PErr InvalidPort
+                         else POk (if negb any || opt_eqb (Some p) (default_port (nfirstn (nlen sch) (ser1 ++ hd host))) then None else Some p, rem0)));;
+                        POk (match port with Some p => (ser1 ++ hd host) ++ [58] ++ decimal p | None => ser1 ++ hd host end,
+                             nlen (ser1 ++ hd host), hi_of_host host, port, rem4))) as Hf.
+        { destruct (65535 <? decimal_value (digits_of PR)) eqn:Eov; [rewrite HPL; exists InvalidPort; reflexivity|].
+          destruct (after_digits PR) as [|c X1] eqn:EX; [discriminate Esae|]. cbn [starts_ae] in Esae.
+          rewrite path_end_ae, Esae in HPL. cbn [orb] in HPL.
+          replace (decimal_value (digits_of PR) <=? 65535) with true in Hbs by lia.
+          cbn [andb starts_with_cp] in Hbs. rewrite Hbs in HPL.
+          rewrite HPL. exists InvalidPort. reflexivity. }
+        eapply mfail_bind2 with (P := True); [apply oob_u32; intros _; exact I|].
+        rewrite Echk. cbn [pbind]. exact Hf.
+  - (* the host ends at the end of the authority *)
+    assert (starts_ae (hs_rest false HR) = true) as Esae.
+    { destruct (hs_rest false HR) as [|c0 X0]; [reflexivity|]. cbn [port_split] in Eps. cbn [starts_ae].
+      destruct (c0 =? 58) eqn:E58; [discriminate Eps|]. destruct Hhead as [K|K]; [exact K | rewrite K in E58; discriminate]. }
+    assert (starts_with_cp 58 (hs_rest false HR) = false) as E58.
+    { destruct (hs_rest false HR) as [|c0 X0]; [reflexivity|]. cbn [port_split] in Eps. cbn [starts_with_cp].
+      destruct (c0 =? 58); [discriminate Eps | reflexivity]. }
+    assert (inp_starts_with_char 58 rem2 = false) as Esw by (rewrite inp_starts_with_char_ntnl, Hrem2; exact E58).
+    assert (inp_split_prefix_char 58 rem2 = None) as Esp.
+    { unfold inp_split_prefix_char. destruct (inp_next rem2) as [[d r]|] eqn:En; [|reflexivity].
+      destruct (inp_next_ntnl rem2 d r En) as [E1 _]. rewrite Hrem2 in E1. rewrite E1 in E58. cbn [starts_with_cp] in E58.
+      rewrite E58. reflexivity. }
+    exists host, sh, None, rem2.
+    split; [reflexivity|]. split; [reflexivity|]. split; [reflexivity|]. split; [intros p Hp; discriminate Hp|].
+    split; [exact Hrem2|]. split; [exact Hu2|]. split; [exact Esae|].
+    split; [rewrite set_port_none; [reflexivity | exact Hpo]|].
+    intros HP. eapply oob_bind; [apply oob_u32; exact HP|].
+    rewrite Esw. cbn [st_is_special]. rewrite Esp.
+    assert (match host with HDomain [] => POk tt | _ => POk tt end = @POk unit tt) as -> by (destruct host as [[|a b]| |]; reflexivity).
+    cbn [pbind port_suffix]. rewrite app_nil_r. right. reflexivity.
+Qed.
+
+End Stages.
